@@ -14,6 +14,9 @@ import TzVerif.Generated.Src
 import TzVerif.Model.TzFile
 import TzVerif.Proofs.SrcEqTzString
 import TzVerif.Proofs.SrcEqZone
+import TzVerif.Proofs.SrcEqTzFileAux
+
+set_option linter.unusedSimpArgs false
 
 namespace TzVerif.Proofs.SrcEq
 open TzVerif TzVerif.Model TzVerif.Gen
@@ -34,33 +37,477 @@ def dbOf (d : Src.DataBlocks) : DataBlocks :=
 def HeaderNonneg (h : Src.Header) : Prop :=
   0 ≤ h.utLocalCount ∧ 0 ≤ h.stdWallCount ∧ 0 ≤ h.leapCount ∧ 0 ≤ h.transitionCount ∧ 0 ≤ h.typeCount ∧ 0 ≤ h.charCount
 
-theorem be_unsigned_eq (b : Bytes) : Src.be_unsigned b = (be32 b : Int) := by
-  sorry
+theorem be_unsigned_eq (b : Bytes) : Src.be_unsigned b = (be32 b : Int) := rfl
 
-theorem be_signed_eq (b : Bytes) : Src.be_signed b = beSigned b := by
-  sorry
+theorem be_signed_eq (b : Bytes) : Src.be_signed b = beSigned b := rfl
+
+theorem header_test_eq (a b c d : Nat) :
+    (!((((decide ((c : Int) ≠ 0)) && (decide ((d : Int) ≠ 0))) && ((decide ((a : Int) = 0)) || (decide ((a : Int) = c)))) && ((decide ((b : Int) = 0)) || (decide ((b : Int) = c)))))
+    = (!(c != 0 && d != 0 && (a == 0 || a == c) && (b == 0 || b == c))) := by
+  rw [Bool.eq_iff_iff]
+  simp only [Bool.not_eq_true', Bool.and_eq_false_iff, Bool.and_eq_true, Bool.or_eq_true, decide_eq_true_eq, decide_eq_false_iff_not,
+    bne_iff_ne, beq_iff_eq, Bool.or_eq_false_iff, beq_eq_false_iff_ne, ne_eq, Decidable.not_not, bne_eq_false_iff_eq]
+  omega
+
+theorem toNat4 : (4 : Int).toNat = 4 := rfl
+theorem toNat1 : (1 : Int).toNat = 1 := rfl
+theorem toNat15 : (15 : Int).toNat = 15 := rfl
+
+/-- the model's match on the version byte (its matcher, by name: the model is hand-written) as an if-chain -/
+theorem ver_match_eq (v : Bytes) :
+    parseHeader.match_1 (fun _ => Option Nat) v (fun _ => some 1) (fun _ => some 2) (fun _ => some 3) (fun _ => none) =
+    if v = [0] then some 1 else if v = [50] then some 2 else if v = [51] then some 3 else none := by
+  split
+  · rfl
+  · rfl
+  · rfl
+  · rename_i h0 h50 h51
+    rw [if_neg h0, if_neg h50, if_neg h51]
+
+/-- the part of `parse_header` after the version byte -/
+theorem parse_header_tail (version : Src.Version) (c : Bytes) :
+  Except.map (fun p => (hdrOf p.fst, p.snd))
+            (match readExact c 15 with
+            | Except.ok (_, cursor) =>
+              match readExact cursor 4 with
+              | Except.ok (__t2, cursor) =>
+                match readExact cursor 4 with
+                | Except.ok (__t3, cursor) =>
+                  match readExact cursor 4 with
+                  | Except.ok (__t4, cursor) =>
+                    match readExact cursor 4 with
+                    | Except.ok (__t5, cursor) =>
+                      match readExact cursor 4 with
+                      | Except.ok (__t6, cursor) =>
+                        match readExact cursor 4 with
+                        | Except.ok (__t7, cursor) =>
+                          if
+                              (!(decide (((be32 __t6 : Nat) : Int) ≠ 0) && decide (((be32 __t7 : Nat) : Int) ≠ 0) &&
+                                      (decide (((be32 __t2 : Nat) : Int) = 0) || decide (((be32 __t2 : Nat) : Int) = ((be32 __t6 : Nat) : Int))) &&
+                                    (decide (((be32 __t3 : Nat) : Int) = 0) || decide (((be32 __t3 : Nat) : Int) = ((be32 __t6 : Nat) : Int))))) =
+                                true then
+                            Except.error TzFileError.invalidHeader
+                          else
+                            Except.ok
+                              (({ version := version, utLocalCount := ((be32 __t2 : Nat) : Int), stdWallCount := ((be32 __t3 : Nat) : Int),
+                                  leapCount := ((be32 __t4 : Nat) : Int), transitionCount := ((be32 __t5 : Nat) : Int), typeCount := ((be32 __t6 : Nat) : Int),
+                                  charCount := ((be32 __t7 : Nat) : Int) } : Src.Header),
+                                cursor)
+                        | Except.error e => Except.error (TzFileError.parseData e)
+                      | Except.error e => Except.error (TzFileError.parseData e)
+                    | Except.error e => Except.error (TzFileError.parseData e)
+                  | Except.error e => Except.error (TzFileError.parseData e)
+                | Except.error e => Except.error (TzFileError.parseData e)
+              | Except.error e => Except.error (TzFileError.parseData e)
+            | Except.error e => Except.error (TzFileError.parseData e)) =
+          (match readExact c 15 with
+          | Except.error e => Except.error (TzFileError.parseData e)
+          | Except.ok (_, c) =>
+            match readExact c 4 with
+            | Except.error e => Except.error (TzFileError.parseData e)
+            | Except.ok (b1, c) =>
+              match readExact c 4 with
+              | Except.error e => Except.error (TzFileError.parseData e)
+              | Except.ok (b2, c) =>
+                match readExact c 4 with
+                | Except.error e => Except.error (TzFileError.parseData e)
+                | Except.ok (b3, c) =>
+                  match readExact c 4 with
+                  | Except.error e => Except.error (TzFileError.parseData e)
+                  | Except.ok (b4, c) =>
+                    match readExact c 4 with
+                    | Except.error e => Except.error (TzFileError.parseData e)
+                    | Except.ok (b5, c) =>
+                      match readExact c 4 with
+                      | Except.error e => Except.error (TzFileError.parseData e)
+                      | Except.ok (b6, c) =>
+                        if
+                            (!(be32 b5 != 0 && be32 b6 != 0 && (be32 b1 == 0 || be32 b1 == be32 b5) &&
+                                  (be32 b2 == 0 || be32 b2 == be32 b5))) =
+                              true then
+                          Except.error TzFileError.invalidHeader
+                        else
+                          Except.ok
+                            (({ version := verOf version, utLocalCount := be32 b1, stdWallCount := be32 b2,
+                                leapCount := be32 b3, transitionCount := be32 b4, typeCount := be32 b5,
+                                charCount := be32 b6 } : Header),
+                              c)) := by
+  cases readExact c 15 with
+  | error e => rfl
+  | ok v =>
+  obtain ⟨_, c⟩ := v
+  dsimp only
+  cases readExact c 4 with
+  | error e => rfl
+  | ok v =>
+  obtain ⟨b1, c⟩ := v
+  dsimp only
+  cases readExact c 4 with
+  | error e => rfl
+  | ok v =>
+  obtain ⟨b2, c⟩ := v
+  dsimp only
+  cases readExact c 4 with
+  | error e => rfl
+  | ok v =>
+  obtain ⟨b3, c⟩ := v
+  dsimp only
+  cases readExact c 4 with
+  | error e => rfl
+  | ok v =>
+  obtain ⟨b4, c⟩ := v
+  dsimp only
+  cases readExact c 4 with
+  | error e => rfl
+  | ok v =>
+  obtain ⟨b5, c⟩ := v
+  dsimp only
+  cases readExact c 4 with
+  | error e => rfl
+  | ok v =>
+  obtain ⟨b6, c⟩ := v
+  dsimp only
+  rw [header_test_eq]
+  split
+  · rfl
+  · rfl
 
 theorem parse_header_eq (c : Bytes) :
     (Src.parse_header c).map (fun p => (hdrOf p.1, p.2)) = parseHeader c := by
-  sorry
+  unfold Src.parse_header parseHeader
+  simp only [read_exact_toNat, be_unsigned_eq, toNat4, toNat1, toNat15]
+  cases readExact c 4 with
+  | error e => rfl
+  | ok v =>
+    obtain ⟨magic, c⟩ := v
+    dsimp only
+    by_cases hm : magic = [84, 90, 105, 102]
+    · rw [if_neg (by simp only [bne_iff_ne, ne_eq, hm, not_true_eq_false, not_false_eq_true]), if_neg (by simp only [ne_eq, hm, not_true_eq_false, not_false_eq_true])]
+      cases readExact c 1 with
+      | error e => rfl
+      | ok v =>
+        obtain ⟨v, c⟩ := v
+        dsimp only
+        rw [ver_match_eq]
+        simp only [decide_eq_true_eq]
+        by_cases h0 : v = [0]
+        · rw [if_pos h0, if_pos h0]; exact parse_header_tail _ _
+        · rw [if_neg h0, if_neg h0]
+          by_cases h50 : v = [50]
+          · rw [if_pos h50, if_pos h50]; exact parse_header_tail _ _
+          · rw [if_neg h50, if_neg h50]
+            by_cases h51 : v = [51]
+            · rw [if_pos h51, if_pos h51]; exact parse_header_tail _ _
+            · rw [if_neg h51, if_neg h51]; rfl
+    · rw [if_pos (by simp only [bne_iff_ne, ne_eq, hm, not_false_eq_true]), if_pos (by simp only [ne_eq, hm, not_false_eq_true])]
+      rfl
+
+theorem be_unsigned_nonneg (b : Bytes) : 0 ≤ Src.be_unsigned b := by
+  unfold Src.be_unsigned; omega
 
 /-- a header the source accepts has non-negative counts -/
 theorem parse_header_nonneg (c : Bytes) (h : Src.Header) (r : Bytes) (hp : Src.parse_header c = .ok (h, r)) :
     HeaderNonneg h := by
-  sorry
+  unfold Src.parse_header at hp
+  dsimp only at hp
+  repeat' split at hp
+  all_goals first
+    | (cases hp; done)
+    | (rename_i heq; subst hp; (repeat' split at heq) <;> cases heq)
+    | (cases hp
+       exact ⟨be_unsigned_nonneg _, be_unsigned_nonneg _, be_unsigned_nonneg _, be_unsigned_nonneg _, be_unsigned_nonneg _, be_unsigned_nonneg _⟩)
+
+theorem toNat_mul_nat (k n : Nat) : ((k : Int) * (n : Int)).toNat = k * n := by
+  rw [← Int.natCast_mul, Int.toNat_natCast]
+theorem toNat_mul_six (k : Nat) : ((k : Int) * 6).toNat = k * 6 := toNat_mul_nat k 6
+theorem toNat_mul_add4 (k n : Nat) : ((k : Int) * ((n : Int) + 4)).toNat = k * (n + 4) := toNat_mul_nat k (n + 4)
+
+theorem header_lift (h : Src.Header) (hn : HeaderNonneg h) :
+    ∃ (a b c d e f : Nat), h = { version := h.version, utLocalCount := a, stdWallCount := b, leapCount := c, transitionCount := d, typeCount := e, charCount := f } := by
+  obtain ⟨v, a, b, c, d, e, f⟩ := h
+  obtain ⟨ha, hb, hc, hd, he, hf⟩ := hn
+  dsimp only at ha hb hc hd he hf
+  refine ⟨a.toNat, b.toNat, c.toNat, d.toNat, e.toNat, f.toNat, ?_⟩
+  rw [Int.toNat_of_nonneg ha, Int.toNat_of_nonneg hb, Int.toNat_of_nonneg hc, Int.toNat_of_nonneg hd, Int.toNat_of_nonneg he, Int.toNat_of_nonneg hf]
 
 theorem read_data_blocks_eq (ts : Nat) (c : Bytes) (h : Src.Header) (hn : HeaderNonneg h) :
     (Src.read_data_blocks (ts : Int) c h).map (fun p => (dbOf p.1, p.2)) = readDataBlocks ts c (hdrOf h) := by
-  sorry
+  obtain ⟨a, b, cc, d, e, f, hh⟩ := header_lift h hn
+  rw [hh]
+  unfold Src.read_data_blocks readDataBlocks hdrOf
+  simp only [read_exact_toNat, Int.toNat_natCast, toNat_mul_nat, toNat_mul_six, toNat_mul_add4]
+  cases readExact c (d * ts) with
+  | error e => rfl
+  | ok v =>
+  obtain ⟨b1, c⟩ := v
+  dsimp only
+  cases readExact c d with
+  | error e => rfl
+  | ok v =>
+  obtain ⟨b2, c⟩ := v
+  dsimp only
+  cases readExact c (e * 6) with
+  | error e => rfl
+  | ok v =>
+  obtain ⟨b3, c⟩ := v
+  dsimp only
+  cases readExact c f with
+  | error e => rfl
+  | ok v =>
+  obtain ⟨b4, c⟩ := v
+  dsimp only
+  cases readExact c (cc * (ts + 4)) with
+  | error e => rfl
+  | ok v =>
+  obtain ⟨b5, c⟩ := v
+  dsimp only
+  cases readExact c b with
+  | error e => rfl
+  | ok v =>
+  obtain ⟨b6, c⟩ := v
+  dsimp only
+  cases readExact c a with
+  | error e => rfl
+  | ok v =>
+  obtain ⟨b7, c⟩ := v
+  rfl
+
+theorem ver3_eq (v : Src.Version) : decide (v = Src.Version.v3) = (verOf v == 3) := by
+  cases v <;> rfl
+
+theorem map_zip_map_left {α β γ δ : Type} (g : α → β) (k : β × γ → δ) (l1 : List α) (l2 : List γ) :
+    (List.zip (l1.map g) l2).map k = (List.zip l1 l2).map (fun x => k (g x.1, x.2)) := by
+  induction l1 generalizing l2 with
+  | nil => rfl
+  | cons x xs ih =>
+    cases l2 with
+    | nil => rfl
+    | cons y ys => simp only [List.map_cons, List.zip_cons_cons, ih]
+
+theorem unwrap_first_chunk4 (c : Bytes) (h : 4 ≤ c.length) : Src.unwrap (Src.first_chunk 4 c) = c.take 4 :=
+  unwrap_first_chunk_take 4 c h
+
+theorem dec0_eq (x : Nat) : decide (x = 0) = !(x != 0) := by
+  by_cases hx : x = 0 <;> simp [hx]
+
+theorem parse_time_eq (n : Int) (d : Src.DataBlocks) (b : Bytes) :
+    (if (decide (n = 4)) then (Src.DataBlocks_4.parse_time d b) else (Src.DataBlocks_8.parse_time d b)) = beSigned b := by
+  unfold Src.DataBlocks_4.parse_time Src.DataBlocks_8.parse_time
+  rw [ite_self, be_signed_eq]
 
 /-- the decoder of one data block, for the two time sizes the source instantiates -/
 theorem data_blocks_parse_eq (ts : Nat) (hts : ts = 4 ∨ ts = 8) (d : Src.DataBlocks) (h : Src.Header) (hn : HeaderNonneg h)
     (footer : Option Bytes) :
     Src.DataBlocks.parse (ts : Int) d h footer = (dbOf d).parse ts (hdrOf h) footer := by
-  sorry
+  have hts0 : 0 < ts := by omega
+  obtain ⟨a, b, cc, dd, e, f, hh⟩ := header_lift h hn
+  rw [hh]
+  generalize h.version = ver
+  clear hh hn h
+  unfold Src.DataBlocks.parse DataBlocks.parse hdrOf dbOf
+  dsimp only
+  simp only [parse_time_eq, Int.toNat_natCast, chunks_exact_eq, show ((ts : Int) + 4) = ((ts + 4 : Nat) : Int) from rfl,
+    show (6 : Int) = ((6 : Nat) : Int) from rfl]
+  -- the transitions
+  generalize hR1 : Src.forIn ((chunksExact ts d.transitionTimes).zip d.transitionTypes) _ [] = R1
+  rw [forIn_push (fun x : Bytes × Nat => ({ unixLeapTime := beSigned x.1, localTimeTypeIndex := x.2 } : Transition))] at hR1
+  rotate_left
+  · intro x hx s
+    have hl := chunks_length ts _ x.1 (List.of_mem_zip hx).1
+    rw [unwrap_first_chunk ts _ hl]
+    rfl
+  subst hR1
+  -- the leap seconds
+  generalize hR3 : Src.forIn (chunksExact (ts + 4) d.leapSeconds) _ [] = R3
+  rw [forIn_push (fun c : Bytes => ({ unixLeapTime := beSigned (List.take ts c), correction := beSigned (List.take 4 (List.drop ts c)) } : LeapSecond))] at hR3
+  rotate_left
+  · intro x hx s
+    have hl := chunks_length (ts + 4) _ x hx
+    rw [unwrap_split_first_chunk ts _ (by omega)]
+    dsimp only
+    rw [unwrap_first_chunk4 _ (by rw [List.length_drop]; omega), be_signed_eq]
+    rfl
+  subst hR3
+  -- the local time types
+  generalize hR2 : Src.forInR (chunksExact 6 d.localTimeTypes) _ [] = R2
+  rw [ltt_loop d.timeZoneDesignations f] at hR2
+  rotate_left
+  · intro x hx s
+    have hd6 := chunks_length 6 _ x hx
+    obtain _ | ⟨a0, _ | ⟨a1, _ | ⟨a2, _ | ⟨a3, _ | ⟨a4, _ | ⟨a5, _ | ⟨a6, r⟩⟩⟩⟩⟩⟩⟩ := x <;> simp at hd6
+    unfold parseLocalTimeType
+    simp only [Src.unwrap, Option.getD_some]
+    have e0 : Src.idx [a0, a1, a2, a3, a4, a5] 0 = a0 := rfl
+    have e1 : Src.idx [a0, a1, a2, a3, a4, a5] 1 = a1 := rfl
+    have e2 : Src.idx [a0, a1, a2, a3, a4, a5] 2 = a2 := rfl
+    have e3 : Src.idx [a0, a1, a2, a3, a4, a5] 3 = a3 := rfl
+    have e4 : Src.idx [a0, a1, a2, a3, a4, a5] 4 = a4 := rfl
+    have e5 : Src.idx [a0, a1, a2, a3, a4, a5] 5 = a5 := rfl
+    have g4 : [a0, a1, a2, a3, a4, a5].getD 4 0 = a4 := rfl
+    have g5 : [a0, a1, a2, a3, a4, a5].getD 5 0 = a5 := rfl
+    have t4 : List.take 4 [a0, a1, a2, a3, a4, a5] = [a0, a1, a2, a3] := rfl
+    simp only [e0, e1, e2, e3, e4, e5, g4, g5, t4, be_signed_eq]
+    simp only [Int.toNat_natCast, decide_eq_true_eq]
+    by_cases hbad : a4 ≠ 0 ∧ a4 ≠ 1
+    · rw [if_pos hbad, if_neg hbad.1, if_neg hbad.2]
+    · rw [if_neg hbad]
+      generalize hF : (if a4 = 0 then Src.Flow.val false else _ : Src.Flow (Except TzError TimeZone) Bool) = F
+      have hF' : F = Src.Flow.val (a4 == 1) := by
+        subst hF
+        by_cases h40 : a4 = 0
+        · subst h40; rfl
+        · have h41 : a4 = 1 := by omega
+          subst h41; rfl
+      rw [hF']
+      generalize (a4 == 1) = b
+      dsimp only
+      by_cases hcf : a5 ≥ f
+      · rw [if_pos hcf, if_pos (by omega)]
+      · rw [if_neg hcf, if_neg (by omega)]
+        have hps := position_span (fun c => decide (c = 0)) (fun x => x != 0) dec0_eq (List.drop a5 d.timeZoneDesignations)
+        cases hp : Src.position (fun c => decide (c = 0)) (List.drop a5 d.timeZoneDesignations) with
+        | none =>
+          rw [hp] at hps
+          dsimp only at hps ⊢
+          rw [hps]
+          rfl
+        | some i =>
+          rw [hp] at hps
+          obtain ⟨h0, h1, h2⟩ := hps
+          dsimp only
+          have ei : ((a5 : Int) + i - (a5 : Int)).toNat = i.toNat := by omega
+          have hr : List.isEmpty (spanWhile (fun x => x != 0) (List.drop a5 d.timeZoneDesignations)).snd = false := by
+            cases hh : (spanWhile (fun x => x != 0) (List.drop a5 d.timeZoneDesignations)).snd with
+            | nil => exact absurd hh h2
+            | cons _ _ => rfl
+          rw [ei, ← h1, hr]
+          generalize (spanWhile (fun x => x != 0) (List.drop a5 d.timeZoneDesignations)).fst = name
+          cases hn : name.isEmpty with
+          | true =>
+            simp only [Bool.not_true, Bool.false_eq_true, if_false, if_true]
+            cases LocalTimeType.new (beSigned [a0, a1, a2, a3]) b none <;> rfl
+          | false =>
+            simp only [Bool.not_false, if_true, Bool.false_eq_true, if_false]
+            cases LocalTimeType.new (beSigned [a0, a1, a2, a3]) b (some name) <;> rfl
+  subst hR2
+  cases parseLocalTimeTypes d.timeZoneDesignations f (chunksExact 6 d.localTimeTypes) with
+  | error err => rfl
+  | ok types =>
+    dsimp only
+    simp only [List.nil_append]
+    unfold Src.PaddedZip.take
+    simp only [Int.toNat_natCast]
+    generalize hR4 : Src.forInR (List.zip (Src.paddedTake e d.stdWalls 0) (Src.paddedTake e d.utLocals 0)) _ () = R4
+    rw [indicator_loop (Except.error (TzError.tzFile TzFileError.invalidStdWallUtLocal))] at hR4
+    rotate_left
+    · intro s u
+      dsimp only
+      rw [show ∀ c : Bool, (if c = true then true else false) = c from fun c => by cases c <;> rfl]
+      rfl
+    subst hR4
+    by_cases hok : indicatorPairsOk e d.stdWalls d.utLocals = true
+    · simp only [hok, if_true, Bool.not_true, Bool.false_eq_true, if_false]
+      rw [footer_eq, ver3_eq, map_zip_map_left]
+      cases footer with
+      | none => exact zone_new_eq' _ _ _ _
+      | some ft =>
+        dsimp only
+        cases parseFooter ft (verOf ver == 3) with
+        | error err => rfl
+        | ok rule => exact zone_new_eq' _ _ _ _
+    · simp only [hok, Bool.false_eq_true, if_false, Bool.not_false, if_true]
+
+theorem read_data_blocks_4 (c : Bytes) (h : Src.Header) (hn : HeaderNonneg h) :
+    (Src.read_data_blocks 4 c h).map (fun p => (dbOf p.1, p.2)) = readDataBlocks 4 c (hdrOf h) :=
+  read_data_blocks_eq 4 c h hn
+
+theorem read_data_blocks_8 (c : Bytes) (h : Src.Header) (hn : HeaderNonneg h) :
+    (Src.read_data_blocks 8 c h).map (fun p => (dbOf p.1, p.2)) = readDataBlocks 8 c (hdrOf h) :=
+  read_data_blocks_eq 8 c h hn
+
+theorem data_blocks_parse_4 (d : Src.DataBlocks) (h : Src.Header) (hn : HeaderNonneg h) (footer : Option Bytes) :
+    Src.DataBlocks.parse 4 d h footer = (dbOf d).parse 4 (hdrOf h) footer :=
+  data_blocks_parse_eq 4 (Or.inl rfl) d h hn footer
+
+theorem data_blocks_parse_8 (d : Src.DataBlocks) (h : Src.Header) (hn : HeaderNonneg h) (footer : Option Bytes) :
+    Src.DataBlocks.parse 8 d h footer = (dbOf d).parse 8 (hdrOf h) footer :=
+  data_blocks_parse_eq 8 (Or.inr rfl) d h hn footer
+
+/-- the second part of a version 2/3 file -/
+theorem parse_v2_tail (h : Src.Header) (hn : HeaderNonneg h) (c : Bytes) :
+    (match (Src.read_data_blocks 4 c h) with
+      | .ok ((_, cursor)) =>
+        match (Src.parse_header cursor) with
+        | .ok ((header, cursor)) =>
+          match (Src.read_data_blocks 8 cursor header) with
+          | .ok ((data_blocks, cursor)) =>
+            match (Src.DataBlocks.parse 8 data_blocks header (some cursor)) with
+            | .ok __t2 => (Except.ok __t2)
+            | .error e => (Except.error e)
+          | .error e => (Except.error (TzVerif.Model.TzError.tzFile e))
+        | .error e => (Except.error (TzVerif.Model.TzError.tzFile e))
+      | .error e => (Except.error (TzVerif.Model.TzError.tzFile e))) =
+    (match readDataBlocks 4 c (hdrOf h) with
+    | .error e => .error (.tzFile e)
+    | .ok (_, c) =>
+    match parseHeader c with
+    | .error e => .error (.tzFile e)
+    | .ok (h2, c) =>
+    match readDataBlocks 8 c h2 with
+    | .error e => .error (.tzFile e)
+    | .ok (blocks, footer) => blocks.parse 8 h2 (some footer) parseFooter) := by
+  rw [← read_data_blocks_4 c h hn]
+  cases Src.read_data_blocks 4 c h with
+  | error e => rfl
+  | ok v =>
+    obtain ⟨_, c1⟩ := v
+    dsimp only [Except.map]
+    rw [← parse_header_eq]
+    cases hp : Src.parse_header c1 with
+    | error e => rfl
+    | ok v =>
+      obtain ⟨h2, c2⟩ := v
+      have hn2 := parse_header_nonneg c1 h2 c2 hp
+      dsimp only [Except.map]
+      rw [← read_data_blocks_8 c2 h2 hn2]
+      cases Src.read_data_blocks 8 c2 h2 with
+      | error e => rfl
+      | ok v =>
+        obtain ⟨d, c3⟩ := v
+        dsimp only [Except.map]
+        rw [data_blocks_parse_8 d h2 hn2]
+        cases DataBlocks.parse 8 (dbOf d) (hdrOf h2) (some c3) <;> rfl
 
 /-- the whole decoder -/
 theorem parse_tz_file_eq (b : Bytes) : Src.parse_tz_file b = parseTzFile b := by
-  sorry
-
+  unfold Src.parse_tz_file parseTzFile parseTzFileWith
+  dsimp only
+  rw [← parse_header_eq]
+  cases hp : Src.parse_header b with
+  | error e => rfl
+  | ok v =>
+    obtain ⟨h, c⟩ := v
+    have hn := parse_header_nonneg b h c hp
+    dsimp only [Except.map]
+    cases hv : h.version with
+    | v1 =>
+      have e1 : (hdrOf h).version = 1 := by unfold hdrOf; rw [hv]; rfl
+      rw [if_pos e1]
+      dsimp only
+      rw [← read_data_blocks_4 c h hn]
+      cases Src.read_data_blocks 4 c h with
+      | error e => rfl
+      | ok v =>
+        obtain ⟨d, c1⟩ := v
+        dsimp only [Except.map]
+        rw [data_blocks_parse_4 d h hn]
+        cases DataBlocks.parse 4 (dbOf d) (hdrOf h) none <;> rfl
+    | v2 =>
+      have e1 : ¬ (hdrOf h).version = 1 := by unfold hdrOf; rw [hv]; dsimp only; decide
+      rw [if_neg e1]
+      exact parse_v2_tail h hn c
+    | v3 =>
+      have e1 : ¬ (hdrOf h).version = 1 := by unfold hdrOf; rw [hv]; dsimp only; decide
+      rw [if_neg e1]
+      exact parse_v2_tail h hn c
 end TzVerif.Proofs.SrcEq
